@@ -31,6 +31,7 @@ type c19Op struct {
 	Cred string // none self other
 	Buf  string // recv buffer: one len-1 len 32k 64k
 	Seed int
+	Free int // recv: >0 = the receiver has only this many free descriptor slots (RLIMIT_NOFILE lowered for the call)
 }
 
 type c19Case struct {
@@ -44,7 +45,11 @@ func c19GenCase(rt *rapid.T) c19Case {
 	inflight := 0
 	for i := 0; i < n; i++ {
 		if inflight > 0 && (inflight >= 3 || rapid.Bool().Draw(rt, "dorecv")) {
-			c.Ops = append(c.Ops, c19Op{Kind: "recv", Buf: rapid.SampledFrom([]string{"len", "len", "32k", "64k", "64k", "len-1", "one"}).Draw(rt, "buf")})
+			rop := c19Op{Kind: "recv", Buf: rapid.SampledFrom([]string{"len", "len", "32k", "64k", "64k", "len-1", "one"}).Draw(rt, "buf")}
+			if rapid.IntRange(0, 7).Draw(rt, "lowfd") == 0 {
+				rop.Free = rapid.IntRange(1, 4).Draw(rt, "free")
+			}
+			c.Ops = append(c.Ops, rop)
 			inflight--
 			continue
 		}
@@ -167,7 +172,53 @@ func c19Run(c c19Case, mk *c19Markers, rec *vh.Recorder) error {
 			}
 			buf := make([]byte, size)
 			b.SetReadDeadline(time.Now().Add(3 * time.Second))
+			// optionally the receiver is short of descriptor slots: the kernel then installs only some of the descriptors
+			// and flags the control data as truncated
+			var oldLim syscall.Rlimit
+			lowered := false
+			lowLimit := 0
+			if op.Free > 0 && len(want.fds) > op.Free {
+				if syscall.Getrlimit(syscall.RLIMIT_NOFILE, &oldLim) == nil {
+					open := map[int]bool{}
+					self := fmt.Sprintf("=/proc/%d/fd", os.Getpid())
+					for _, e := range fdList() {
+						if strings.HasSuffix(e, self) || strings.HasSuffix(e, "=") {
+							continue // the descriptor of this very listing (already closed again when its link is read)
+						}
+						var n int
+						fmt.Sscanf(e, "%d=", &n)
+						open[n] = true
+					}
+					// the limit L leaves exactly Free unused numbers below it
+					free, L := 0, 0
+					for free < op.Free {
+						if !open[L] {
+							free++
+						}
+						L++
+					}
+					for open[L] { // numbers directly above that are in use do not add free slots
+						L++
+					}
+					nl := oldLim
+					nl.Cur = uint64(L)
+					lowLimit = L
+					if nl.Cur < oldLim.Cur && syscall.Setrlimit(syscall.RLIMIT_NOFILE, &nl) == nil {
+						lowered = true
+					}
+				}
+			}
 			n, msg, err := b.RecvMsg(buf)
+			if lowered {
+				syscall.Setrlimit(syscall.RLIMIT_NOFILE, &oldLim)
+				nt = true
+				classes = append(classes, "receiver-out-of-descriptor-slots")
+				closeInts(msg.Fds)
+				if err == nil {
+					return vh.Violf("C19:delivered-truncated", "op %d: a message with %d descriptors was delivered (with %d of them: %v) to a receiver that had %d free slots (limit %d); %s", oi, len(want.fds), len(msg.Fds), msg.Fds, op.Free, lowLimit, desc)
+				}
+				continue
+			}
 			fits := size >= len(want.payload)
 			if !fits && len(want.fds) > 0 {
 				nt = true
